@@ -304,6 +304,11 @@ def seq_reference(sem, names=None):
 
 
 # ---------------------------------------------------------------- generation of hazard-free programs
+# `-> g ? D(a) : D(b)` is not generated: parsec-ptgpp emits the `..._direct_access` accessor twice for a ternary whose two
+# sides are memory references and the generated C does not compile (DESIGN.md 8.2, recorded with C24)
+MEM_MEM_TERNARY = False
+
+
 class ValGen(jdfgen.Gen):
     def finish_flows(self):
         """as jdfgen.Gen.finish_flows, but an RW flow is never fed by NEW (its body would read the tile),
@@ -341,11 +346,43 @@ class ValGen(jdfgen.Gen):
                                 f.deps.insert(k, nd)
                             else:
                                 f.deps.insert(k + 1, nd)
-                if f.mode in ('B', 'W') and r.chance(2, 3):
-                    outs = [tg for d in f.deps if not d.din for tg in (d.then, d.els) if tg is not None and tg[0] == 'T']
-                    if all(self.p.classes[tg[1]].flows[tg[2]].mode == 'R' for tg in outs):
-                        f.deps.append(jdfgen.Dep(False, None, self.mem_ref(ci)))
+                if f.mode in ('B', 'W'):
+                    self.add_writebacks(ci, c, f)
         self.p.ndata = max(1, self.data_next)
+
+    def add_writebacks(self, ci, c, f):
+        """final write-backs `-> D(b)` into fresh elements (never the element the copy came from), through every
+        spelling of the output dependency.  A guarded output to a successor task (guard false at the end of a
+        chain / on the instances that do not forward) gets the write-back on its other side:
+            -> g ? A T(..) : D(b)        ternary, memory on the FALSE side
+            -> !g ? D(b) : A T(..)       ternary, memory on the TRUE side
+            -> g ? A T(..)   -> !g ? D(b)   two binary guards
+        a flow whose copy nobody modifies afterwards gets  -> D(b) | -> par ? D(b) | -> par ? D(b) : D(b')
+        (par: parity of the first coordinate, true and false over the instances)."""
+        r = self.r
+        force = getattr(self, "force_wb", False)
+        for d in [d for d in f.deps if not d.din and d.guard is not None and d.then[0] == 'T' and d.els is None]:
+            if not (force or r.chance(1, 2)):
+                continue
+            mem = self.mem_ref(ci)
+            form = r.below(3)
+            if form == 0:
+                d.els = mem
+            elif form == 1:
+                d.guard, d.then, d.els = jdfgen.N(d.guard), mem, d.then
+            else:
+                f.deps.append(jdfgen.Dep(False, jdfgen.N(d.guard), mem))
+        if force or r.chance(2, 3):
+            outs = [tg for d in f.deps if not d.din for tg in (d.then, d.els) if tg is not None and tg[0] == 'T']
+            if all(self.p.classes[tg[1]].flows[tg[2]].mode == 'R' for tg in outs):
+                par = jdfgen.simp(jdfgen.B("eq", jdfgen.B("mod", self.canon(ci, 0), jdfgen.C(2)), jdfgen.C(0)))
+                form = r.below(4) if MEM_MEM_TERNARY else r.below(3)
+                if form <= 1:
+                    f.deps.append(jdfgen.Dep(False, None, self.mem_ref(ci)))
+                elif form == 2:
+                    f.deps.append(jdfgen.Dep(False, par if r.chance(1, 2) else jdfgen.N(par), self.mem_ref(ci)))
+                else:
+                    f.deps.append(jdfgen.Dep(False, par, self.mem_ref(ci), self.mem_ref(ci)))
 
 
 def _t_bcast_read(g):
@@ -414,6 +451,53 @@ def _t_overlap(g):
         g.connect((t, x), (t, x), [jdfgen.shift(0, 1)], [jdfgen.shift(0, -1)], out_bounds=r.chance(1, 2))
 
 
+def _t_wbforms(g):
+    """chains that read one element and END by writing another one, the final write-back sitting on the other side of
+    the guarded output dependency that forwards the copy (all spellings, see ValGen.add_writebacks); one chain starts
+    from D(a) and is modified in place on the way, one starts from a NEW tile"""
+    r = g.r
+    g.force_wb = True
+    n = r.range(2, 7)
+    t = g.new_class([(n, False)])
+    a = g.add_flow(t, 'B')
+    g.connect((t, a), (t, a), [jdfgen.shift(0, 1)], [jdfgen.shift(0, -1)], out_bounds=True)
+    s = g.new_class([(n, False)])
+    w = g.add_flow(s, 'W')                       # <- NEW
+    u = g.new_class([(n, False)])
+    ub = g.add_flow(u, 'B')
+    # S(k) -> U(k) only for even k (guarded output: the odd S write their tile back instead)
+    g.connect((s, w), (u, ub), [jdfgen.same(0)], [jdfgen.same(0)],
+              gs=lambda uu: jdfgen.B("eq", jdfgen.B("mod", uu[0], jdfgen.C(2)), jdfgen.C(0)),
+              gd=lambda uu: jdfgen.B("eq", jdfgen.B("mod", uu[0], jdfgen.C(2)), jdfgen.C(0)))
+    if r.chance(1, 2):
+        d = r.pick([1, 2])
+        b2 = g.add_flow(u, 'B')
+        g.connect((u, b2), (u, b2), [jdfgen.shift(0, d)], [jdfgen.shift(0, -d)], out_bounds=True)
+
+
+def writeback_forms(p):
+    """how the final write-backs of a program are spelt: counts per form, and whether each form's guard is both
+    true and false over the instances"""
+    d = {"uncond": 0, "binary": 0, "tern_mem_false": 0, "tern_mem_true": 0, "tern_mem_mem": 0}
+    for c in p.classes:
+        for f in c.flows:
+            for dp in f.deps:
+                if dp.din:
+                    continue
+                tm, em = dp.then[0] == 'M', (dp.els is not None and dp.els[0] == 'M')
+                if dp.guard is None:
+                    d["uncond"] += 1 if tm else 0
+                elif dp.els is None:
+                    d["binary"] += 1 if tm else 0
+                elif tm and em:
+                    d["tern_mem_mem"] += 1
+                elif tm:
+                    d["tern_mem_true"] += 1
+                elif em:
+                    d["tern_mem_false"] += 1
+    return d
+
+
 def overlapping_flows(p):
     """number of (instance, data flow) pairs with more than one applicable input dependency"""
     n = 0
@@ -426,8 +510,8 @@ def overlapping_flows(p):
     return n
 
 
-EXTRA_TEMPLATES = {"bcast_read": _t_bcast_read, "relay": _t_relay, "overlap": _t_overlap}
-VAL_TEMPLATES = ("overlap", "chain", "fan", "bcast_gather", "diamond", "split_merge", "pipeline2d", "tri", "mixed", "bcast_read", "relay")
+EXTRA_TEMPLATES = {"bcast_read": _t_bcast_read, "relay": _t_relay, "overlap": _t_overlap, "wbforms": _t_wbforms}
+VAL_TEMPLATES = ("wbforms", "overlap", "chain", "fan", "bcast_gather", "diamond", "split_merge", "pipeline2d", "tri", "mixed", "bcast_read", "relay")
 
 
 def gen_value_program(rng, template=None, max_inst=100, tries=60):
